@@ -31,7 +31,7 @@ PROPS = {
                      "Grol.Lexer.C16.sticky", "Grol.Lexer.C16.marker_within", "Grol.Lexer.C16.monotone",
                      "Grol.Lexer.C16.lookupIdent_keyword", "Grol.Lexer.C16.keywords_never_ident",
                      "Grol.Lexer.C16.intern_unique", "Grol.Lexer.C16.interning_partial", "Grol.Lexer.C16.next_wf",
-                     "Grol.Lexer.C16.initTable_nodup", "Grol.Lexer.nextCore_spec", "Grol.Lexer.readStringLoop_spec",
+                     "Grol.Lexer.C16.initTable_nodup", "Grol.Lexer.resolve_den", "Grol.Lexer.nextCore_spec", "Grol.Lexer.readStringLoop_spec",
                      "Grol.Lexer.blockLoop_spec", "Grol.Lexer.readNumber_spec", "Grol.Lexer.skipWhitespace_spec"],
         "suites": ["lex"],
         "rule": "lex suite: every case is one byte string in one lexer mode (f = lexer.NewBytes, l = lexer.NewLineMode); the observation is "
